@@ -8,6 +8,7 @@ CONSTANTS
   Clusters <- T_Clusters
   Override <- T_Override
   OverrideC2 = 0
+  OvrValues <- T_OvrValues
   Limits <- T_Limits
   EvictOn <- T_EvictOn
   QT = 0
@@ -22,7 +23,7 @@ CONSTANTS
   Gen = "off"
   Depth = 0
 CONSTRAINT Track_
-INVARIANTS P_C16_NbLeMax P_C16_NbCountsSessions P_C16_PerIpLimit P_C16_OneSlotPerToken P_C16_TracksOnlyLive P_C16_NoUnderflow P_C16_Baseline T_ServedLeMax
+INVARIANTS P_C16_NbLeMax P_C16_NbCountsSessions P_C16_PerIpLimit P_C16_OneSlotPerToken P_C16_TracksOnlyLive P_C16_SlotRecorded P_C16_PerIpServed P_C16_NoUnderflow P_C16_Baseline T_ServedLeMax
 PROPERTIES P_C16_Admission P_C16_Hysteresis P_C16_PerIpAdmission
 POSTCONDITION TraceAccepted
 CHECK_DEADLOCK FALSE
